@@ -25,6 +25,18 @@ type invocation struct {
 	Redirect bool
 	Out      string
 	Fmt      string
+	// Fifo: the input path (not Piped) is a named pipe delivering the file's
+	// content (gts cmd <(cat file)); FifoSec: so are the other input files
+	// among the positional arguments.
+	Fifo    bool
+	FifoSec bool
+}
+
+func fifoPath(p string) string {
+	if strings.HasPrefix(p, "/u/") {
+		return cliFifo + strings.TrimPrefix(p, "/u")
+	}
+	return p
 }
 
 func (iv invocation) argv() []string {
@@ -38,9 +50,18 @@ func (iv invocation) argv() []string {
 	if iv.Out != "" {
 		a = append(a, "-o", iv.Out)
 	}
-	a = append(a, iv.Pos...)
+	for _, p := range iv.Pos {
+		if iv.FifoSec {
+			p = fifoPath(p)
+		}
+		a = append(a, p)
+	}
 	if !iv.Piped {
-		a = append(a, iv.Input)
+		if iv.Fifo {
+			a = append(a, fifoPath(iv.Input))
+		} else {
+			a = append(a, iv.Input)
+		}
 	}
 	return a
 }
@@ -59,6 +80,9 @@ const preamble = "this line was consumed by the caller before gts started\n"
 
 func (iv invocation) step(r *core.RNG) *runStep {
 	rs := &runStep{Argv: iv.argv()}
+	if !iv.Piped && (iv.Fifo || iv.FifoSec) {
+		rs.Chunks = genChunks(r)
+	}
 	if iv.Piped {
 		rs.Stdin = iv.Input
 		rs.Chunks = genChunks(r)
@@ -294,6 +318,12 @@ func genInvocation(r *core.RNG, cmd string) invocation {
 		if r.Chance(1, 2) {
 			iv.Input = pickS(r, []string{"/u/pre.gb", "/u/pre.fasta"})
 		}
+	}
+	if !iv.Piped && r.Chance(1, 8) {
+		iv.Fifo = true
+	}
+	if r.Chance(1, 14) {
+		iv.FifoSec = true
 	}
 	if !tableOut[cmd] && r.Chance(1, 3) {
 		iv.Fmt = pickS(r, formats)
